@@ -67,6 +67,7 @@ static CO_ERR COTSdoIdWrite(struct CO_OBJ_T *obj, struct CO_NODE_T *node, void *
     uint32_t  newval;
     uint32_t  curval;
     uint8_t   num;
+    uint8_t   client;
 
     CO_UNUSED(node);
     ASSERT_PTR_ERR(obj, CO_ERR_BAD_ARG);
@@ -76,11 +77,12 @@ static CO_ERR COTSdoIdWrite(struct CO_OBJ_T *obj, struct CO_NODE_T *node, void *
     newval = *(uint32_t *)buffer;
     (void)uint32->Read(obj, node, &curval, sizeof(curval));
     num = CO_GET_IDX(obj->Key) & 0x7F;
+    client = CO_GET_IDX(obj->Key) & 0x80;
 
     if ((curval & CO_SDO_ID_OFF) == 0) {
         if ((newval & CO_SDO_ID_OFF) != 0) {
             err = uint32->Write(obj, node, &newval, sizeof(newval));
-            if (err == CO_ERR_NONE) {
+            if ((err == CO_ERR_NONE) && (client == 0)) {
                 COSdoReset(node->Sdo, num, node);
             }
         } else {
@@ -89,7 +91,8 @@ static CO_ERR COTSdoIdWrite(struct CO_OBJ_T *obj, struct CO_NODE_T *node, void *
     } else {
         err = uint32->Write(obj, node, &newval, sizeof(newval));
     }
-    if (err == CO_ERR_NONE) {
+    /* 1280h..12FFh are the COB-IDs of the SDO clients: no SDO server */
+    if ((err == CO_ERR_NONE) && (client == 0)) {
         COSdoEnable(node->Sdo, num);
     }
 
